@@ -200,6 +200,43 @@ fn one_case<G: HG, const N: usize>(ctx: &mut Ctx, idx: usize) {
         let ms_s: Vec<Scalar> = ms.iter().zip(ms_b.iter()).map(|(a, b)| a + b).collect();
         open(ctx, &sum, &(cd + cdb), &(bf + bf_b), &ms_s, Some(true), "homomorphic-sum");
     }
+    // neighbour parameter sets: all but one ingredient shared with `pp` (another h; one other g_i; two generators
+    // swapped), used back to back with `pp` on this thread.  The commitment and the opening check must depend on the
+    // *whole* parameter set: anything keyed on part of it (a table of prepared generators looked up by h, a memo of the
+    // last parameter set) shows here — every answer is compared with the model's exact one and with the naive oracle.
+    if N <= 17 {
+        for variant in 0..3usize {
+            let (mut h2, mut gs2) = (h, gs.clone());
+            let what = match variant {
+                0 => { h2 = nonzero(&mut ctx.prng); "neighbour-params-h" }
+                1 => { let i = ctx.prng.gen_range(0..N); gs2[i] = nonzero(&mut ctx.prng); "neighbour-params-g" }
+                _ => { if N < 2 { continue; } let i = ctx.prng.gen_range(0..N - 1); gs2.swap(i, i + 1); "neighbour-params-swap" }
+            };
+            let pp2 = params_from::<G, N>(&book, &h2, &gs2);
+            let e2 = wire::msg::<N>(&ms).commit(&pp2, wire::bf(&bf)).to_element();
+            let _ = ctx.expect(&format!("commit {} {} {} {}", hex_s(&h2), hex_list(&gs2), hex_s(&bf), hex_list(&ms)), &[e2.real()]);
+            let mut acc2 = G::mat(&book, &h2) * bf;
+            for (g, mi) in gs2.iter().zip(ms.iter()) { acc2 = acc2 + G::mat(&book, g) * mi; }
+            ctx.count(&format!("{}:{}", what, if acc2 == e2 { "pedersen-map" } else { "WRONG" }));
+            if acc2 != e2 {
+                ctx.violation("commitment under a neighbouring parameter set differs from the Pedersen map h^r * prod g_i^m_i",
+                    json!({"class": "neighbour-params-commit", "variant": what, "group": G::NAME, "N": N, "h": hex_s(&h2), "gs": hex_list(&gs2), "bf": hex_s(&bf), "ms": hex_list(&ms), "after-h": hex_s(&h), "after-gs": hex_list(&gs)}));
+            }
+            // the original commitment opened under the neighbour: accepted iff the two maps agree on this opening
+            let real = elem.commitment().verify_opening(&pp2, wire::bf(&bf), &wire::msg::<N>(&ms));
+            let _ = ctx.expect(&format!("open {} {} {} {} {}", hex_s(&h2), hex_list(&gs2), hex_s(&cd), hex_s(&bf), hex_list(&ms)), &[Real::B(real)]);
+            if real != (acc2 == elem) {
+                ctx.violation(&format!("verify_opening under a neighbouring parameter set returned {} although the recomputed commitment is {}", real, if acc2 == elem { "equal" } else { "different" }),
+                    json!({"class": "neighbour-params-open", "variant": what, "group": G::NAME, "N": N, "h": hex_s(&h2), "gs": hex_list(&gs2), "c": hex_s(&cd), "bf": hex_s(&bf), "ms": hex_list(&ms)}));
+            }
+            // … and the original parameter set again
+            let e1 = wire::msg::<N>(&ms).commit(&pp, wire::bf(&bf)).to_element();
+            if e1 != elem {
+                ctx.violation("the commitment under a parameter set changes after a neighbouring parameter set was used", json!({"class": "neighbour-params-commit", "variant": what, "group": G::NAME, "N": N, "h": hex_s(&h), "gs": hex_list(&gs), "bf": hex_s(&bf), "ms": hex_list(&ms)}));
+            }
+            open(ctx, &elem, &cd, &bf, &ms, Some(true), "original-after-neighbour");
+        }
+    }
 }
 
 macro_rules! for_all_n {
